@@ -276,22 +276,25 @@ func TestC07(t *testing.T) {
 			return
 		}
 
-		// (i) repository files
-		for _, cf := range gen.Corpus() {
-			if !hx.Thorough() && len(cf.Data) > 200000 {
-				continue
-			}
-			for _, be := range []bool{false, true} {
-				sig, msg, ok, acc := checkInput(rec, cf.Data, be)
-				rec.Eval("corpus", 1)
-				if acc {
-					rec.NonTrivial(hx.FP(cf.Name + fmt.Sprint(be)))
-					rec.Class("corpus-accepted", 1)
+		if hx.FirstShard() {
+			// (i) repository files
+			for _, cf := range gen.Corpus() {
+				if !hx.Thorough() && len(cf.Data) > 200000 {
+					continue
 				}
-				if !ok {
-					rec.Fail("corpus", sig, cf.Name+": "+msg, inCase{Data: hex.EncodeToString(cf.Data), BE: be, Note: cf.Name})
+				for _, be := range []bool{false, true} {
+					sig, msg, ok, acc := checkInput(rec, cf.Data, be)
+					rec.Eval("corpus", 1)
+					if acc {
+						rec.NonTrivial(hx.FP(cf.Name + fmt.Sprint(be)))
+						rec.Class("corpus-accepted", 1)
+					}
+					if !ok {
+						rec.Fail("corpus", sig, cf.Name+": "+msg, inCase{Data: hex.EncodeToString(cf.Data), BE: be, Note: cf.Name})
+					}
 				}
 			}
+
 		}
 
 		// dedicated reproductions of the open findings
